@@ -8,6 +8,22 @@ ALL = [f'C{i:02d}' for i in range(1, 21)]
 
 # property -> (level text, level note, technique, design section)
 CHECKS = {
+    'C14': (
+        'Lean 4 theorems for every number of qubits: the product of two Pauli strings computed with the single-qubit table (power of i '
+        'included) acts on every computational basis state exactly as the composition of the two operators (C14_pauli_mul_hom, induction '
+        'over the qubits); two strings commute, coefficients included, iff they anticommute on an even number of qubits (C14_commutes_iff); '
+        'the 8-bit accumulation of per-qubit exponents masked with 3 is the exponent modulo 4 for every length (C14_dense_mul_phase). T1: '
+        'MutablePauliString._imul_atom_helper (all 32 cases) and _vectorized_pauli_mul_phase (all 16 cases) are tabulated from the running '
+        'code on every run and kernel-decided equal to the product table (left product for sign +1, right product for sign -1). T2: products '
+        'of PauliString / MutablePauliString / DensePauliString against the Lean product; negation, scalars, powers, sums, sum products, '
+        'dense slicing, conjugated_by / after / before under random Clifford operation lists, PauliStringPhasor and its decomposition, '
+        'PauliSumExponential, expectation values from state vectors, density matrices and the simulator under random qubit maps against '
+        'matrices built by the harness.',
+        'Trusted: Lean kernel; harness + driver; T2 laws other than product/commutation are decided per generated case against numpy '
+        'matrices, not proved; in-place mutable operations are specified through the immutable product they implement (as the property says).',
+        'Lean 4 proof (induction over qubits) + exhaustive kernel tables decided by the kernel + differential check',
+        'DESIGN.md §3 C14',
+    ),
     'C09': (
         'Lean 4 theorems: the Kraus-branch selection loop of the state-vector trajectory simulator (p -= weight; if p < 0: break) selects '
         'branch k exactly when the uniform draw lies in the k-th interval of the cumulative weights, for any non-negative weights '
